@@ -13,6 +13,8 @@
 -/
 import YalafiVerif.Proofs.Scanner
 import YalafiVerif.Proofs.Utils
+import YalafiVerif.Proofs.PlainVerb
+import YalafiVerif.Generated.Init
 namespace Yalafi
 
 theorem C08_latexError_mark (T : Tables) (err : Str) (pos n : Nat) :
@@ -43,5 +45,39 @@ theorem C08_scanVerbatim_mark (T : Tables) (src : Str) (start : Nat) (rest : Str
     (scanVerbatim T src start rest).tok :: (scanVerbatim T src start rest).extra =
       latexErrorToks T errMissingEndVerbatim start src.length :=
   scanVerbatim_err_mark T src start rest h
+
+/-- **an unterminated `\\verb` yields exactly one diagnostic at its line and column and the complete
+    error mark at its position**, end to end on the filter model: for `pre ++ \\verb d content` with
+    inert `pre` and `content` running to the end of the source (no `d`, no line break), the text
+    before is unchanged with its own positions, the complete mark follows (its characters mapped to
+    the backslash of `\\verb`; the part of a mark longer than the faulty construct to the last source
+    position, as `latex_error` does), the content is dropped, and the diagnostics grow by exactly
+    `bad \\verb argument` at (line, column) of the backslash -/
+theorem C08_verb_unterminated (T : PTables) (o : Options) (fs : FS) (thresh : Nat)
+    (pre : Str) (d : Char) (content : Str) (fuel : Nat) (st1 : PState)
+    (hdefs : o.defs = []) (hextr : o.extr = []) (hrepl : o.hasRepl = false) (hunkn : o.unkn = false)
+    (hinit : initParser T fuel o (initialState T o false fs) = .ok ((), st1))
+    (hok : vsegsOk T st1 [.txt pre, .bad d content] = true)
+    (hf : (pre ++ (sVerb ++ d :: content)).length + 2 ≤ fuel) :
+    ∃ r, tex2txt T fuel (pre ++ (sVerb ++ d :: content)) o false thresh fs = .ok r ∧
+      r.txt = pre ++ errMark T.toTables errBadVerb ∧
+      r.unknowns = [] ∧
+      r.diags = st1.diags ++ [latexErrorDiag errBadVerb pre.length (pre ++ (sVerb ++ d :: content))] := by
+  obtain ⟨r, h1, h2, _, h4, h5, _⟩ :=
+    tex2txt_verb_unterminated T o fs thresh pre d content fuel st1 hdefs hextr hrepl hunkn hinit hok hf
+  exact ⟨r, h1, h2, h4, h5⟩
+
+/-- several unterminated `\\verb`s (each up to its line break) give one diagnostic each, in order -/
+theorem C08_verb_segments (T : PTables) (o : Options) (fs : FS) (thresh : Nat) (segs : List VSeg)
+    (fuel : Nat) (st1 : PState)
+    (hdefs : o.defs = []) (hextr : o.extr = []) (hrepl : o.hasRepl = false) (hunkn : o.unkn = false)
+    (hinit : initParser T fuel o (initialState T o false fs) = .ok ((), st1))
+    (hok : vsegsOk T st1 segs = true) (hlines : vlinesOK segs = true)
+    (hf : (renderV segs).length + 2 ≤ fuel) :
+    ∃ r, tex2txt T fuel (renderV segs) o false thresh fs = .ok r ∧
+      r.txt = (outV T.toTables (renderV segs).length 0 segs).map (·.1) ∧
+      r.pos = (outV T.toTables (renderV segs).length 0 segs).map (·.2 + 1) ∧
+      r.unknowns = [] ∧ r.diags = st1.diags ++ diagsV (renderV segs) 0 segs :=
+  tex2txt_verb_segs T o fs thresh segs fuel st1 hdefs hextr hrepl hunkn hinit hok hlines hf
 
 end Yalafi
